@@ -39,6 +39,15 @@ CHECKS.update({
                      "(also after json.dumps/json.loads) for every type without overlapping unions, and enumerates every (type, value) case; "
                      "the real library must reproduce the documented outer form and load it back to a typed-equal value in all 6 modes. "
                      "Model layouts (name_mapping) and model kinds ride on the C03/C17 machinery."),
+    "C10": dict(technique="TLA+ spec Preds.tla (Match over predicate syntax trees and location stacks) model-checked by TLC: documented "
+                          "identities as invariants; per-expression verdict vectors replayed on the real checkers",
+                category="model_checking", design_ref="6/C10",
+                note="trusts: spec/PredAxioms.tla (issubclass/isabstract/isidentifier/re.fullmatch facts generated from Python); gamma "
+                     "in vf/props/c10.py builds the same expression with the real P syntax; bounded nesting/stack depth",
+                text="TLC checks the documented identities (P['n']==P.n, P[A]==A, P[A]+P.n==P[A].n, P[A,B]==P[A]|P[B], De Morgan, xor "
+                     "associativity) for all stacks on the documented matching rules and enumerates every expression with its verdict on "
+                     "every stack; the real create_loc_stack_checker must agree on every pair (exhaustive: ~500 expressions x 1332 "
+                     "stacks quick, nesting 3 and the rich pools thorough), plus the effect route through a Retort."),
     "C04": dict(technique=_LOAD_TECH + "; any exception that is not a LoadError tree is a violation", category="model_checking",
                 design_ref="6/C04", note=_LOAD_NOTE,
                 text="The model's outcome alphabet is {accepted, LoadError tree}; every enumerated case (incl. the hostile token classes "
